@@ -67,13 +67,24 @@ class FakeMember(Solver):
         LOGQ.put((self.MEMBER, "posting", cfg["verdict"]))
         return cfg["verdict"] == "sat"
 
+    def _model(self):
+        # values given as Python numbers are turned into constants HERE, in the member's process: like a real solver,
+        # the member then hands out nodes its parent has never built
+        mgr = self.environment.formula_manager
+        # ... after some nodes of its own (a real solver wrapper builds intermediate terms while reading the answer):
+        # the ids of the nodes it hands out are unrelated to the ids the parent gives to equal nodes
+        for j in range(self.cfg.get("garbage", 0)):
+            mgr.Int(100000 + 17 * j + self.MEMBER)
+        mk = lambda v: v if not isinstance(v, (bool, int)) else (mgr.Bool(v) if isinstance(v, bool) else mgr.Int(v))
+        return EagerModel({s: mk(v) for s, v in self.cfg["model"]}, self.environment)
+
     def get_model(self):
         LOGQ.put((self.MEMBER, "served", "get_model"))
-        return EagerModel(dict(self.cfg["model"]), self.environment)
+        return self._model()
 
     def get_value(self, formula):
         LOGQ.put((self.MEMBER, "served", "get_value"))
-        return EagerModel(dict(self.cfg["model"]), self.environment).get_value(formula)
+        return self._model().get_value(formula)
 
     def _exit(self):
         pass
